@@ -143,11 +143,11 @@ func selectFollowing(nodeSet NodeSet) Result {
 }
 
 func appendFollowing(cursor store.Cursor, result []store.Cursor) []store.Cursor {
-	parent := cursor.Parent()
-
-	if parent.Pos() == 0 {
+	if cursor.Pos() == 0 {
 		return result
 	}
+
+	parent := cursor.Parent()
 
 	found := false
 
@@ -177,11 +177,11 @@ func selectFollowingSibling(nodeSet NodeSet) Result {
 }
 
 func appendFollowingSibling(cursor store.Cursor, result []store.Cursor) []store.Cursor {
-	parent := cursor.Parent()
-
-	if parent.Pos() == 0 {
+	if cursor.Pos() == 0 {
 		return result
 	}
+
+	parent := cursor.Parent()
 
 	children := parent.Children()
 	start := 0
@@ -230,11 +230,11 @@ func selectPreceding(nodeSet NodeSet) Result {
 }
 
 func appendPreceding(cursor store.Cursor, result []store.Cursor) []store.Cursor {
-	parent := cursor.Parent()
-
-	if parent.Pos() == 0 {
+	if cursor.Pos() == 0 {
 		return result
 	}
+
+	parent := cursor.Parent()
 
 	found := false
 	children := parent.Children()
@@ -265,11 +265,11 @@ func selectPrecedingSibling(nodeSet NodeSet) Result {
 }
 
 func appendPrecedingSibling(cursor store.Cursor, result []store.Cursor) []store.Cursor {
-	parent := cursor.Parent()
-
-	if parent.Pos() == 0 {
+	if cursor.Pos() == 0 {
 		return result
 	}
+
+	parent := cursor.Parent()
 
 	children := parent.Children()
 	end := 0
